@@ -3,7 +3,7 @@ import common
 import graph_prog as GP
 from common import cN, cZ, cnat, cbool, clist, copt, cpair
 
-PROOF_FILES = ['Proofs/NnxLift.v']
+PROOF_FILES = ['Proofs/NnxLift.v', 'Proofs/Axes.v']
 ASSUMPTIONS = [
     'jax.vmap = map over the index with batchedness tracked by dependency, lax.scan = fold, jax.grad = the symbolic derivative of the polynomial (idealised; not verified)',
     'an axis-group Variable is represented by its slices along the declared axis: the moveaxis arithmetic of the code is tied to the model by the correspondence (non-square shapes), not by a theorem',
